@@ -18,6 +18,12 @@ Definition build_call_map (deps : list ds) : gomap nat :=
   let pm := project_method_names deps in
   fold_left (fun m c => if str_mem c pm then mput m c (S (mget_d 0 m c)) else m) (all_call_names deps) [].
 
+(* string_helper.SortWord: rows ordered by key (byte order) *)
+Definition sort_word (m : gomap nat) : list (string * nat) := sort_by (fun a b => str_leb (fst a) (fst b)) m.
+
+(* what `coca count` lists *)
+Definition count_report (deps : list ds) : list (string * nat) := sort_word (build_call_map deps).
+
 (* ---- evaluate ---- *)
 Definition is_static (f : func) : bool := str_mem "static" (f_mods f).      (* StringArrayContains *)
 Definition is_util_class (d : ds) : bool := contains (to_lower (d_node d)) "util".
@@ -46,8 +52,8 @@ Definition is_upper (c : ascii) : bool := let n := nat_of_ascii c in Nat.leb 65 
 Definition is_lower (c : ascii) : bool := let n := nat_of_ascii c in Nat.leb 97 n && Nat.leb n 122.
 Definition c_dot : ascii := "."%char.
 
-(* strcase.ToDelimited(s, '.') for names without digits (addWordBoundariesToNumbers is then the
-   identity); acc is the output built so far, reversed *)
+(* the loop of strcase.ToScreamingDelimited(s, '.', 0, false) over ASCII text; acc is the output built so
+   far, reversed *)
 Fixpoint to_delimited_loop (first : bool) (s : list ascii) (acc : list ascii) : list ascii :=
   match s with
   | [] => rev acc
@@ -67,7 +73,42 @@ Fixpoint to_delimited_loop (first : bool) (s : list ascii) (acc : list ascii) : 
     to_delimited_loop false rest acc'
   end.
 
-Definition to_delimited (s : string) : string := to_lower (unchars (to_delimited_loop true (chars s) [])).
+Definition is_letter (c : ascii) : bool := is_upper c || is_lower c.
+Definition is_digit (c : ascii) : bool := let n := nat_of_ascii c in Nat.leb 48 n && Nat.leb n 57.
+
+Fixpoint span_digits (s : list ascii) : list ascii * list ascii :=
+  match s with
+  | c :: r => if is_digit c then let (ds, rest) := span_digits r in (c :: ds, rest) else ([], s)
+  | [] => ([], [])
+  end.
+
+(* addWordBoundariesToNumbers: ReplaceAll of ([a-zA-Z])(\d+)([a-zA-Z]?) by "$1 $2 $3", leftmost matches,
+   the search resuming after each match *)
+Fixpoint add_boundaries (fuel : nat) (s : list ascii) : list ascii :=
+  match fuel with
+  | 0 => s
+  | S fuel' =>
+    match s with
+    | c :: ((d :: _) as r) =>
+      if is_letter c && is_digit d then
+        let (ds, rest) := span_digits r in
+        match rest with
+        | l :: rest' => if is_letter l then (c :: " "%char :: ds ++ " "%char :: l :: add_boundaries fuel' rest')%list
+                        else (c :: " "%char :: ds ++ " "%char :: add_boundaries fuel' rest)%list
+        | [] => (c :: " "%char :: ds ++ [" "%char])%list
+        end
+      else c :: add_boundaries fuel' r
+    | _ => s
+    end
+  end.
+
+Fixpoint trim_left_sp (s : list ascii) : list ascii :=
+  match s with c :: r => if Ascii.eqb c " "%char then trim_left_sp r else s | [] => [] end.
+Definition trim_sp (s : list ascii) : list ascii := rev (trim_left_sp (rev (trim_left_sp s))).
+
+Definition to_delimited (s : string) : string :=
+  let cs := chars s in
+  to_lower (unchars (to_delimited_loop true (trim_sp (add_boundaries (List.length cs) cs)) [])).
 
 Definition all_digits (s : string) : bool :=
   negb (String.eqb s "") && forallb (fun c => let n := nat_of_ascii c in Nat.leb 48 n && Nat.leb n 57) (chars s).
@@ -80,10 +121,16 @@ Definition segment_camelcase (names : list string) : gomap nat :=
                fold_left (fun m w => if all_digits w || String.eqb w "" then m else mput m w (S (mget_d 0 m w)))
                          (split "." (to_delimited name)) m) names [].
 
-Definition remove_normal_words (m : gomap nat) : gomap nat :=
-  fold_left (fun m w => if Nat.ltb 0 (mget_d 0 m w) then mdel m w else m) (ENGLISH_STOP_WORDS ++ TechStopWords)%list m.
+(* removeNormalWords: the English stop words followed by the technical ones *)
+Definition stop_words : list string := (ENGLISH_STOP_WORDS ++ TechStopWords)%list.
+
+Definition remove_words (sw : list string) (m : gomap nat) : gomap nat :=
+  fold_left (fun m w => if Nat.ltb 0 (mget_d 0 m w) then mdel m w else m) sw m.
+Definition remove_normal_words (m : gomap nat) : gomap nat := remove_words stop_words m.
 
 (* SortWord: by key *)
+Definition concept_words (sw : list string) (names : list string) : list (string * nat) :=
+  sort_word (remove_words sw (segment_camelcase names)).
+
 Definition concept_analysis (deps : list ds) : list (string * nat) :=
-  sort_by (fun a b => str_leb (fst a) (fst b))
-          (remove_normal_words (segment_camelcase (flat_map (fun d => map f_name (d_funcs d)) deps))).
+  concept_words stop_words (flat_map (fun d => map f_name (d_funcs d)) deps).
